@@ -24,8 +24,9 @@ def changelogCheck (backend : String) (prev cur : Obs) (distinctKeys : Bool) : O
     let gone := prev.tuples.filter (fun t => !ct.contains (fmtTuple t))
     let came := cur.tuples.filter (fun t => !pt.contains (fmtTuple t))
     let want := gone.map (fun t => "-" ++ fmtTuple t.redact) ++ came.map (fun t => "+" ++ fmtTuple t)
-    -- (a key that is deleted and written again in one request — possible only below the command layer — shows as a
-    --  pair of entries without a change of the tuple set: such requests are left to the replay check)
+    -- (a key that is deleted and written again in one request — possible only below the command layer: the same key in
+    --  deletes and writes, or a delete key with an empty object id that the memory backend reads as a wildcard — shows
+    --  as a pair of entries without a change of the tuple set: such requests are left to the replay check)
     if distinctKeys && sortStrings (cc.drop pc.length) != sortStrings want then
       some s!"the changelog did not get exactly one entry per effective write/delete [{backend}]"
     else none
@@ -60,7 +61,7 @@ def cStep (backend : String) (acc : CAcc) (tok : String) (g : String) : CAcc :=
       let expected := ";".intercalate [mres, m'.dump]
       { acc with m := m', prev := cur, now := acc.now + 1,
                  diff := if g != expected then some (s!"request {acc.now}: " ++ expected) else none,
-                 viol := (changelogCheck backend acc.prev cur (!hasDupKeys (r.dels ++ r.writes.map (·.key)))).map (· ++ s!" at request {acc.now}"),
+                 viol := (changelogCheck backend acc.prev cur (reqWellFormed r)).map (· ++ s!" at request {acc.now}"),
                  oks := acc.oks + (if res == "ok" then 1 else 0) }
   | _, _ => { acc with diff := some "malformed case or output" }
 
